@@ -424,6 +424,22 @@ pub fn run(ctx: &Ctx, case: &SearchCase, spec: &SchedSpec) -> RunReport {
     if case.repeat > 1 && out.outcome == Outcome::Completed {
         let strategies = [Strategy::Sticky(900), Strategy::Uniform, Strategy::RoundRobin, Strategy::Pct { d: 3, len: 2000 }];
         for k in 1..case.repeat {
+            // the pool size is part of the environment, not of (position, seed, depth): shallow
+            // searches through the public entry use one worker whatever it is; and the explicit
+            // single-worker entry must report the same as the public one
+            let mut case_k = case.clone();
+            for s in case_k.searches.iter_mut() {
+                let shallow = s.depth.map(|d| d <= 3).unwrap_or(false);
+                if shallow && matches!(s.entry, Entry::Public) {
+                    if k == 1 {
+                        s.rayon_threads = [1usize, 3, 7, 16][(spec.seed % 4) as usize];
+                    } else if s.faults.is_empty() {
+                        s.entry = Entry::Sync { workers: Some(1) };
+                        s.rayon_threads = 1;
+                    }
+                }
+            }
+            let case = &case_k;
             let mut s2 = spec.clone();
             s2.seed = crate::rng::derive(spec.seed, 19, k as u64);
             s2.strategy = strategies[(k as usize) % strategies.len()].clone();
@@ -974,6 +990,31 @@ pub fn generate(ctx: &Ctx, prop: &str, rng: &mut Rng64, thorough: bool, index: u
         repeat: 0,
     };
     match prop {
+        "C03" if rng.chance(60) => {
+            // the same position again on the same memory, with a Stop that is already waiting
+            // when the search comes to life: whatever the table says about the root (a mate
+            // score against the side to move included), something must still be reported
+            case.dims = *rng.pick(&[(8usize, 64usize), (8, 1024), (2, 8)]);
+            let p = if rng.chance(500) {
+                let mut q = corpus::random_tb_pos(rng);
+                while q.legal_moves().is_empty() || !matches!(ctx.tb.probe(&q), Some(Val::Loss(n)) if n <= 6) {
+                    q = corpus::random_tb_pos(rng);
+                }
+                q
+            } else {
+                pick_position(ctx, rng)
+            };
+            let d = 2 + rng.below(3) as u32;
+            let (entry, rt, _) = entry_for(rng, Some(d));
+            case.searches.push(SearchSpec { fen: p.fen(), depth: Some(d), seed: pick_seed(rng), entry, rayon_threads: rt, fresh: false, history: vec![], faults: vec![] });
+            let (entry, rt, _) = entry_for(rng, Some(d));
+            let d2 = if rng.chance(500) { Some(1 + rng.below(d as u64) as u32) } else { None };
+            let mut faults = vec![Fault { kind: FaultKind::StopAtStep, at: rng.below(2), times: 1 }];
+            if d2.is_none() {
+                faults.push(Fault { kind: FaultKind::StopAtGlobalNode, at: 60_000, times: 1 });
+            }
+            case.searches.push(SearchSpec { fen: p.fen(), depth: d2, seed: pick_seed(rng), entry, rayon_threads: rt, fresh: false, history: vec![], faults });
+        }
         "C03" if rng.chance(250) => {
             // a game going forward on a small table: each position is searched after one of its
             // predecessors was searched deeper, so the new root usually already has an entry
@@ -1238,10 +1279,15 @@ pub fn generate(ctx: &Ctx, prop: &str, rng: &mut Rng64, thorough: bool, index: u
             // mates in one by a special kind of move (double check, discovered check, promotion,
             // pawn move, capture): the leaf-level mate detection sees each kind differently
             case.dims = *rng.pick(&[(8usize, 1024usize), (8, 64)]);
-            let (_, fen, _) = *rng.pick(corpus::SPECIAL_MATES);
             let w = *rng.pick(&[1usize, 1, 2, 4]);
             let (entry, rt) = if rng.chance(600) { (Entry::Sync { workers: Some(w) }, w) } else { (Entry::Public, w) };
-            case.searches.push(SearchSpec { fen: fen.to_string(), depth: Some(1 + rng.below(3) as u32), seed: pick_seed(rng), entry, rayon_threads: rt, fresh: true, history: vec![], faults: vec![] });
+            let (fen, depth) = if rng.chance(350) {
+                // mate in three plies that starts with an under-promotion
+                (rng.pick(corpus::UNDERPROMOTION_MATES).0, 3 + rng.below(3) as u32)
+            } else {
+                (rng.pick(corpus::SPECIAL_MATES).1, 1 + rng.below(3) as u32)
+            };
+            case.searches.push(SearchSpec { fen: fen.to_string(), depth: Some(depth), seed: pick_seed(rng), entry, rayon_threads: rt, fresh: true, history: vec![], faults: vec![] });
         }
         "C06" => {
             case.dims = *rng.pick(&[(8usize, 1024usize), (8, 64)]);
@@ -1462,6 +1508,22 @@ pub fn generate(ctx: &Ctx, prop: &str, rng: &mut Rng64, thorough: bool, index: u
             case.searches.push(SearchSpec { fen: p.fen(), depth: Some(depth), seed: pick_seed(rng), entry, rayon_threads: rt, fresh: true, history: vec![], faults });
         }
         _ => unreachable!(),
+    }
+    if prop == "C17" && case.searches.iter().any(|s| s.depth.map(|d| d > 7).unwrap_or(false)) {
+        // the deepest searches only with one or two workers and a table that holds their tree
+        // (total work stays affordable)
+        case.dims = (16, 4096);
+        case.node_cap = 6_000_000;
+        for s in case.searches.iter_mut() {
+            match &mut s.entry {
+                Entry::Sync { workers: Some(w) } if *w > 2 => {
+                    *w = 2;
+                    s.rayon_threads = 2;
+                }
+                Entry::Public if s.rayon_threads > 2 => s.rayon_threads = 2,
+                _ => {}
+            }
+        }
     }
     case
 }
